@@ -386,10 +386,24 @@ type c12Buf struct {
 	fixed   bool // FixedBufferCleaner(max, target) instead of the default cleaner
 	max     int
 	target  int
+	late    *c12Late // a NewConsumer call made while the shutdown may be under way
 	differ  int // index of the consumer a separate goroutine calls Diff on (-1 none)
 	dpause  pause
 	dBusy   bool
 }
+
+// c12Late is a consumer requested late: the NewConsumer call may race Buffer.Close. It either fails
+// cleanly or yields a consumer that the buffer's close closes like any other.
+type c12Late struct {
+	pre      pause
+	stall    int
+	c        bigbuff.Consumer
+	err      error
+	returned bool
+	started  bool
+}
+
+func (x *c12Buf) lateStarted() bool { return x.late != nil && x.late.started }
 
 func newC12Buf(r *c12Run, nCons int) *c12Buf {
 	r.seq++
@@ -438,6 +452,19 @@ func newC12Buf(r *c12Run, nCons int) *c12Buf {
 			}
 		}
 	}
+	if simrt.Chance(1, 3) {
+		x.late = &c12Late{pre: drawPause(), stall: simrt.DrawRange(0, 40)}
+		r.addAction("late NewConsumer", func() {
+			go func() {
+				x.late.pre.do(c12Unit)
+				simrt.Stall(x.late.stall)
+				x.late.started = true
+				simrt.Probe("new_consumer_during_shutdown")
+				x.late.c, x.late.err = x.b.NewConsumer()
+				x.late.returned = true
+			}()
+		})
+	}
 	r.addAction("buffer close", func() { x.h.explicitClose() })
 	if simrt.Chance(1, 4) {
 		r.addAction("buffer close again", func() { x.h.explicitClose() })
@@ -464,6 +491,18 @@ func (x *c12Buf) start(r *c12Run) {
 		for _, k := range x.cons {
 			if k.h.closedStamp == 0 {
 				k.h.closedStamp = simrt.Stamp()
+			}
+			if k.c != nil && !k.h.doneClosed() {
+				simrt.Failf("C12.consumer-open-after-buffer-close", "%s: Buffer.Close has returned, yet the Done channel of its %s is still open", h.name, k.h.name)
+				return false
+			}
+		}
+		if x.late != nil && x.late.c != nil {
+			select {
+			case <-x.late.c.Done():
+			default:
+				simrt.Failf("C12.consumer-open-after-buffer-close", "%s: Buffer.Close has returned, yet the Done channel of the consumer created during the shutdown is still open", h.name)
+				return false
 			}
 		}
 		h.postStage = "Put"
@@ -604,6 +643,20 @@ func (x *c12Buf) verify(r *c12Run) bool {
 			return false
 		}
 	}
+	if x.late != nil && x.late.stall >= 0 && x.lateStarted() {
+		if !x.late.returned {
+			simrt.Failf("C12.call-stuck", "buffer %d: a NewConsumer call made during the shutdown has not returned at quiescence", x.id)
+			return false
+		}
+		if x.late.err == nil {
+			select {
+			case <-x.late.c.Done():
+			default:
+				simrt.Failf("C12.done-not-closed", "buffer %d: the consumer that NewConsumer returned during the shutdown is still open after the buffer was closed", x.id)
+				return false
+			}
+		}
+	}
 	if x.dBusy {
 		simrt.Failf("C12.call-stuck", "buffer %d: a Diff / Buffer.Range on consumer %d has not returned at quiescence after the shutdown phase", x.id, x.differ)
 		return false
@@ -620,6 +673,19 @@ func (x *c12Buf) verify(r *c12Run) bool {
 			maxCommitted = k.commits
 		}
 	}
+	// a consumer that was never closed by its user was open from before the first Put until the Buffer
+	// closed it: under the default cleaner nothing it had not committed can have been removed, neither
+	// before nor during the close ("leaves its contents readable")
+	heldBack := false
+	for _, k := range x.cons {
+		if len(k.h.calls) == 0 && (!heldBack || k.commits < maxCommitted) {
+			heldBack = true
+			maxCommitted = k.commits
+		}
+	}
+	if heldBack {
+		simrt.Probe("contents_bounded_by_a_consumer_open_until_the_buffer_closed")
+	}
 	final := x.b.Slice()
 	if len(final) != len(x.atClose) {
 		simrt.Failf("C12.slice-after-close", "buffer %d: Slice() returned %d values right after Close and %d at the end: the contents of a closed buffer changed", x.id, len(x.atClose), len(final))
@@ -627,7 +693,7 @@ func (x *c12Buf) verify(r *c12Run) bool {
 	}
 	for pass, s := range [][]interface{}{x.atClose, final} {
 		if len(s) > len(x.put) || (!x.fixed && len(s) < len(x.put)-maxCommitted) {
-			simrt.Failf("C12.slice-after-close", "buffer %d: Slice() after Close (pass %d) has %d values; %d were put and at most %d were committed by any consumer", x.id, pass, len(s), len(x.put), maxCommitted)
+			simrt.Failf("C12.slice-after-close", "buffer %d: Slice() after Close (pass %d) has %d values; %d were put and at most %d were committed by every consumer that was open until the buffer closed (or by any consumer, if none was)", x.id, pass, len(s), len(x.put), maxCommitted)
 			return false
 		}
 		off := len(x.put) - len(s)
